@@ -289,6 +289,8 @@ def decodeFrag : Nat → String → Json → Option String → Option Agg
                     pure (v, w)
                 | _ => none)
             | _ => none
+          -- two entries with the same value are rejected (a dict cannot hold both)
+          if !(vals.map (·.1)).Nodup then none else
           pure (.node (.bag (deadQty nm) r) e (.bag vals) none [])
     | "Bin", .obj m =>
         if !Json.hasKeys m ["low", "high", "entries", "values:type", "values", "underflow:type",
